@@ -66,7 +66,29 @@ func c17Env(history int, latest uint64) (*vEnv, Keeper, c17Service, types.Feed) 
 	for b := 1; b <= history; b++ {
 		k.SetFeedValue(e.ctx, "pair", uint64(b), latest, types.FeedValue{Data: strconv.Itoa(b) + ".00000000", Timestamp: time.Unix(int64(1000+b), 0)})
 	}
+	// neighbouring feeds whose names are a proper prefix / an extension of the feed's name, with histories of
+	// their own: every feed's history is its own
+	for i, name := range c17Neighbours {
+		k.SetFeed(e.ctx, types.Feed{FeedName: name, AggregateFunc: "avg", ValueJsonPath: "rate", LatestHistory: 3,
+			RequestContextID: tmbytes.HexBytes{byte(7 + i)}.String(), Creator: vAddr(2).String()})
+		for b := 1; b <= 2; b++ {
+			k.SetFeedValue(e.ctx, name, uint64(b), 3, types.FeedValue{Data: strconv.Itoa(70+10*i+b) + ".00000000", Timestamp: time.Unix(int64(900+b), 0)})
+		}
+	}
 	return e, k, sk, feed
+}
+
+var c17Neighbours = []string{"pai", "pairs"}
+
+// c17NeighboursIntact: the neighbouring feeds still hold exactly their own two values, newest first.
+func c17NeighboursIntact(k Keeper, ctx sdk.Context) bool {
+	for i, name := range c17Neighbours {
+		vs := k.GetFeedValues(ctx, name)
+		if len(vs) != 2 || vs[0].Data != strconv.Itoa(70+10*i+2)+".00000000" || vs[1].Data != strconv.Itoa(70+10*i+1)+".00000000" {
+			return false
+		}
+	}
+	return true
 }
 
 // C17 keeper side: one batch result handed over by the service module.  A value is appended iff the batch
@@ -97,8 +119,13 @@ func VerifC17_HandlerResponse() {
 	verifAssume(bt > 2000 && bt < 1<<32)
 	ctx := e.ctx.WithBlockTime(time.Unix(bt, 0))
 	before := k.GetFeedValues(ctx, "pair")
+	verifAssert(len(before) == history, "a feed's history holds its own values only")
+	for i := range before {
+		verifAssert(before[i].Data == strconv.Itoa(history-i)+".00000000", "a feed's history lists its own values, newest first")
+	}
 	k.HandlerResponse(ctx, tmbytes.HexBytes{1}, outputs, batchErr)
 	after := k.GetFeedValues(ctx, "pair")
+	verifAssert(c17NeighboursIntact(k, ctx), "a batch result of one feed leaves the histories of the other feeds alone")
 	if n == 0 || batchErr != nil {
 		verifCover("ignored")
 		verifAssert(verifDeepEqual(before, after), "a failed or empty batch appends nothing")
